@@ -100,13 +100,23 @@ def get_ranges(headervalue, content_length):
         return None
 
     result = []
-    _bytesunit, byteranges = headervalue.split('=', 1)
+    try:
+        _bytesunit, byteranges = headervalue.split('=', 1)
+    except ValueError:
+        # Syntactically invalid header: ignore it (see rfc quote below).
+        return None
     for brange in byteranges.split(','):
-        start, stop = (x.strip() for x in brange.split('-', 1))
+        try:
+            start, stop = (x.strip() for x in brange.split('-', 1))
+        except ValueError:
+            return None
         if start:
             if not stop:
                 stop = content_length - 1
-            start, stop = list(map(int, (start, stop)))
+            try:
+                start, stop = list(map(int, (start, stop)))
+            except ValueError:
+                return None
             if start >= content_length:
                 # From rfc 2616 sec 14.16:
                 # "If the server receives a request (other than one
@@ -125,6 +135,10 @@ def get_ranges(headervalue, content_length):
                 # did not exist. (Normally, this means return a 200
                 # response containing the full entity)."
                 return None
+            # From rfc 2616 sec 14.35.1: "if the value is greater than or
+            # equal to the current length of the entity-body, last-byte-pos
+            # is taken to be equal to one less than the current length"
+            stop = min(stop, content_length - 1)
             # Prevent duplicate ranges. See Issue #59
             if (start, stop + 1) not in result:
                 result.append((start, stop + 1))
@@ -133,9 +147,20 @@ def get_ranges(headervalue, content_length):
                 # See rfc quote above.
                 return None
             # Negative subscript (last N bytes)
+            try:
+                suffix = int(stop)
+            except ValueError:
+                return None
+            if suffix < 0:
+                return None
+            # A suffix longer than the entity selects the whole entity,
+            # a suffix of zero bytes is unsatisfiable.
+            start = max(content_length - suffix, 0)
+            if start >= content_length:
+                continue
             # Prevent duplicate ranges. See Issue #59
-            if (content_length - int(stop), content_length) not in result:
-                result.append((content_length - int(stop), content_length))
+            if (start, content_length) not in result:
+                result.append((start, content_length))
 
     # Can we satisfy the requested Range?
     # If we have an exceedingly high standard deviation
